@@ -97,6 +97,35 @@ class BuiltinMixin:
                 pass
         return SV(STR, self.p.fresh('str', z3.StringSort()))
 
+    def b_all(self, args, kw):
+        return self._anyall(args, True)
+
+    def b_any(self, args, kw):
+        return self._anyall(args, False)
+
+    def _anyall(self, args, is_all):
+        from .calls import SymIter
+        v = self.force(args[0])
+        items = self.concrete_items(v)
+        if items is not None:
+            ts = [self.truthy(x) for x in items]
+            return SV(BOOL, (z3.And(*ts) if is_all else z3.Or(*ts)) if ts else z3.BoolVal(is_all))
+        if v.kind == CONST and isinstance(v.py, SymIter) and v.py.kind == 'values':
+            d = v.py.base
+            y = z3.Const('y!aa', sort_of(d.kind.key))
+            has, vals = self.dict_has(d), self.dict_vals(d)
+            tv = self.truthy(SV(d.kind.val, z3.Select(vals, y)))
+            if is_all:
+                return SV(BOOL, z3.ForAll([y], z3.Implies(z3.Select(has, y), tv)))
+            return SV(BOOL, z3.Exists([y], z3.And(z3.Select(has, y), tv)))
+        if v.kind.is_list:
+            j = z3.Int('j!aa')
+            n, el = self.list_len(v), self.list_elems(v)
+            tv = self.truthy(SV(v.kind.elem, z3.Select(el, j)))
+            g = z3.And(0 <= j, j < n)
+            return SV(BOOL, z3.ForAll([j], z3.Implies(g, tv)) if is_all else z3.Exists([j], z3.And(g, tv)))
+        raise Unsupported(f'all/any over {v.kind}')
+
     def b_repr(self, args, kw):
         return SV(STR, self.p.fresh('repr', z3.StringSort()))
 
